@@ -149,9 +149,9 @@ def run_tlc(traces, tag="trace"):
     return verdicts, r
 
 
-def validate(ctx, trace_files, tag="C01"):
-    """trace_files: list of (ndjson path, ident)."""
-    traces = []
+def validate(ctx, trace_files, tag="C01", loaded=None):
+    """trace_files: list of (ndjson path, ident); loaded: traces already in Trace_Preproc form."""
+    traces = list(loaded or [])
     for tf, ident in trace_files:
         try:
             traces.extend(load_trace_file(tf, str(ident)))
